@@ -15,7 +15,9 @@ RULE = ("generated frames (5-40 units over reporting / nonreporting / unexpected
         "fitted dummies, one absorbed level per effect, indicator / equal-share rule, centring) is re-evaluated on the output. distinct = "
         "(effects, selected levels, categories present, separate states); non-trivial = >= 1 fixed effect with >= 2 observed levels and >= 1 unseen level")
 
-LEVELS = {"county_classification": ["urban", "rural", "suburban", "exurb"], "postal_code": ["AA", "BB", "CC"], "county_fips": ["001", "002", "010", "1", "10", "011"]}
+# "ward" is a numeric column (an in-memory baseline frame need not hold strings); its levels and the user's selection are integers
+LEVELS = {"county_classification": ["urban", "rural", "suburban", "exurb"], "postal_code": ["AA", "BB", "CC"], "county_fips": ["001", "002", "010", "1", "10", "011"],
+          "ward": [1, 2, 3, 4]}
 
 
 def gen_frame(rng):
@@ -108,14 +110,14 @@ def caller_job(job):
 
 def frow(fr, r):
     fit = r["reporting"] == 1 and r["unit_category"] == "expected"
-    lv = llit([slit(r[fe]) for fe in fr["fes"]])
+    lv = llit([slit(str(r[fe])) for fe in fr["fes"]])
     ft = llit([qlit(r[f]) for f in fr["feats"]])
     return (f"{{| f_fit := {core.blit(fit)}; f_rep := {core.blit(r['reporting'] == 1)}; f_state := {slit(r['postal_code'])}; f_levels := {lv}; f_feats := {ft} |}}")
 
 
 def encode(o):
     fr = o["frame"]
-    fes = llit([f"({slit(fe)}, {'None' if fr['fe_param'][fe] == 'all' else '(Some ' + llit([slit(x) for x in fr['fe_param'][fe]]) + ')'})" for fe in fr["fes"]])
+    fes = llit([f"({slit(fe)}, {'None' if fr['fe_param'][fe] == 'all' else '(Some ' + llit([slit(str(x)) for x in fr['fe_param'][fe]]) + ')'})" for fe in fr["fes"]])
     p = f"{{| p_fes := {fes}; p_feats := {llit([slit(x) for x in fr['feats']])}; p_sep := {llit([slit(x) for x in fr['sep']])}; p_center := true |}}"
     rows = o["rows"]
     rl = llit([frow(fr, r) for r in rows])
@@ -143,7 +145,7 @@ def statement(o):
     fitting = [(r, v) for r, v in zip(rows[:n_rep], o["fit"]) if r["reporting"] == 1 and r["unit_category"] == "expected"]
     for fe in fr["fes"]:
         sel = fr["fe_param"][fe]
-        lvl = lambda r: r[fe] if sel == "all" or r[fe] in sel else "other"  # noqa: E731
+        lvl = lambda r: str(r[fe]) if sel == "all" or r[fe] in sel else "other"  # noqa: E731
         fe_cols = [i for i, c in enumerate(cols) if c.startswith(fe + "_")]
         names = [cols[i][len(fe) + 1:] for i in fe_cols]
         observed = sorted({lvl(r) for r, _ in fitting})
